@@ -31,6 +31,59 @@ def closure_family_calls(prog, body, op):
     return key, out
 
 
+def r5(R, cr):
+    # the repair list is what the function returns; the queue is the other vector of candidate sets that is pushed to in the loop
+    pushes = []
+    for c in cr.calls():
+        if c.name() == "push" and c.args and cr.loops_containing(c.bb):
+            root = cr.alias_root(c.args[0])
+            if root is not None and cr.local_name(root) != "repairs" and "HashSet" in cr.local_ty(root):
+                pushes.append(c)
+    R.floor("C19-R5", "queueing sites for sub-candidates", len(pushes), 1)
+    ALLOWED = {"violates_constraints", "insert", "contains", "next", "pop", "is_some", "is_none"}
+    for n, pc in enumerate(pushes):
+        bad = []
+        seen_consistency = False
+        for c in G.conditions(cr, pc.bb):
+            k = c["kind"]
+            if k == "call":
+                nm = c["call"].name()
+                if nm == "violates_constraints":
+                    seen_consistency = True
+                if nm not in ALLOWED:
+                    bad.append("result of %s()" % nm)
+            elif k == "variant":
+                continue
+            elif k == "cmp":
+                bad.append("comparison %s at line %s" % (c["op"], cr.blocks[c["bb"]]["term"].get("ln")))
+            else:
+                bad.append("condition of kind %s at line %s" % (k, cr.blocks[c["bb"]]["term"].get("ln")))
+        ok = not bad and seen_consistency
+        R.ob("C19-R5", "unpruned:%d" % n, "sub-candidates are queued whenever the candidate is inconsistent and unseen (other conditions: %s)"
+             % (bad or "none"), ok, where=cr.where(pc.ln),
+             detail=None if ok else "candidates are skipped for a reason other than consistency / duplicates: a subset-maximal repair "
+             "below the skipped candidate is never reached, so answers that fail in that repair are returned")
+        # the loop over the candidate's elements: the queueing site returns to it, and it is left only when the elements are exhausted
+        elem_loops = []
+        for c in cr.calls():
+            if c.name() == "next" and c.args:
+                it = cr.alias_root(c.args[0])
+                if it is not None and "hash::set::Iter" in cr.local_ty(it).replace("hash_set", "hash::set"):
+                    own = sorted(cr.loops_containing(c.bb), key=lambda hb: len(hb[1]))
+                    if own:
+                        elem_loops.append((own[0][0], own[0][1], c))
+        mine = [(h, bl, c) for h, bl, c in elem_loops if pc.bb in bl]
+        R.ob("C19-R5", "in-element-loop:%d" % n, "the queueing site lies on the cycle of a loop over the candidate's elements (so it is "
+             "reached for every element)", bool(mine), where=cr.where(pc.ln),
+             detail=None if mine else "after queueing one sub-candidate the element loop is not continued: the other immediate subsets are never explored")
+        for h, blocks, nx in mine[:1]:
+            srcs = {b2 for b2 in blocks for s2 in cr.succ(b2) if s2 not in blocks}
+            okx = all(cr.blocks[b2]["term"]["t"] == "switch" and G.describe_discr(cr, cr.blocks[b2]["term"]["discr"]).get("kind") == "discr"
+                      and F.op_place(cr.blocks[b2]["term"]["discr"]) is not None for b2 in srcs)
+            R.ob("C19-R5", "all-elements:%d" % n, "the loop that removes one element at a time is left only when the elements are exhausted",
+                 okx, where=cr.where(pc.ln))
+
+
 def run(R):
     prog = R.prog
     R.rule("C19-R1", "two-sided maximality: where a candidate is admitted to the repair list under a superset test against "
@@ -39,8 +92,12 @@ def run(R):
                      "under `all` over the remaining repairs (skipping exactly the seed)")
     R.rule("C19-R4", "consistency-guarded derivation: every insertion of a derived fact by the repair-aware strategy is "
                      "dominated by the false edge of violates_constraints on a set that contains that fact")
+    R.rule("C19-R5", "search completeness: every immediate subset of an inconsistent candidate is queued; the only reasons not to "
+                     "queue or expand a candidate are that it is consistent or was seen before (no pruning by size or count: a "
+                     "smaller consistent set can still be subset-maximal)")
     cr = R.body("C19-R1", "Reasoner::compute_repairs", crate="datalog")
     if cr is not None:
+        r5(R, cr)
         pushes = []
         for c in cr.calls():
             if c.name() == "push" and c.args:
